@@ -305,6 +305,8 @@ class Interp:
             # concrete numpy values are handled by numpy itself
             v = getattr(base, attr)
             return NativeCallable(v) if callable(v) else v
+        if hasattr(base, "_zpy") and attr in getattr(base, "_zattrs", ()):
+            return getattr(base, attr)
         if isinstance(base, (str, list, tuple, dict, set, int, float, SymSeq)) or hasattr(base, "_zpy"):
             return PyMethod(base, attr)
         if getattr(base, "_zplain", False):
@@ -420,6 +422,9 @@ class Interp:
             if getattr(self, "_uninterp", None) is not None:
                 self._uninterp.append(("call", [self.w.to_val(a) for a in [f] + list(args)]))
             return self.w.uf("call", [f] + list(args), "val")
+        if callable(f) and getattr(f, "__name__", "") == "<lambda>":
+            # harness stubs (loggers, ...) are plain Python callables
+            return f(*args, **kwargs)
         raise OutsideSubset(f"call of {type(f).__name__}")
 
     def ext_call(self, name, args, kwargs):
@@ -449,6 +454,12 @@ class Interp:
         return r
 
     def instantiate(self, cls: Cls, args, kwargs):
+        h = self.ext.get(f"cls:{cls.name}")
+        if h is not None:
+            return h(self, args, kwargs)
+        return self._instantiate(cls, args, kwargs)
+
+    def _instantiate(self, cls: Cls, args, kwargs):
         obj = Obj(cls)
         init, c = cls.lookup("methods", "__init__")
         if init is not None:
